@@ -372,5 +372,29 @@ def run(ctx):
            any(call_name(c) == 'sorted' and any(kw.arg == 'key' and norm(kw.value) == srt.name
                                                 for kw in c.keywords) for c in calls_in(rp)),
            'conformation names are ordered by conformation_sorter', rl.mod, rp)
+    # the averaging step matches "the same group" across conformations with
+    # find_group: the match has to include the residue type, or the groups of an
+    # alt-loc / model point mutant whose atoms share names (adenine N1 / guanine
+    # N1, two different ligands) are averaged into one group that carries the
+    # label and model pKa of the first
+    cc8 = prog.mod('conformation_container')
+    fg = cc8.func('ConformationContainer.find_group')
+    fparam = [a.arg for a in fg.args.args if a.arg != 'self'][0]
+    rets = [r for r in walk_no_nested(fg) if isinstance(r, ast.Return) and r.value is not None
+            and not (isinstance(r.value, ast.Constant) and r.value.value in (False, None))]
+    typed = bool(rets)
+    for r in rets:
+        ok = False
+        for e, pol in facts_at(r, fg):
+            for cmp_ in [x for x in ast.walk(e) if isinstance(x, ast.Compare) and len(x.ops) == 1]:
+                sides = [norm(cmp_.left), norm(cmp_.comparators[0])]
+                if pol and isinstance(cmp_.ops[0], ast.Eq) and all(t.endswith('.res_name') for t in sides) \
+                        and any(t.startswith(fparam + '.') for t in sides) and sides[0] != sides[1]:
+                    ok = True
+        typed = typed and ok
+    ctx.ob('C08.R4', 'match:includes-residue-type', typed,
+           'ConformationContainer.find_group returns a group only when its residue name equals the '
+           'residue name of the group looked for (%d returning exits)' % len(rets), cc8,
+           rets[0] if rets else fg)
     ctx.assume('matching of a group across conformations relies on find_group; completeness '
-               'of its key is decided by C06.R1')
+               'of the rest of its key is decided by C06.R1')
